@@ -11,7 +11,7 @@ from ..refeval import RefRuntimeError
 from ..refvm import IncludeParseError, RefVM, norm_url
 
 ROOTS = ['https://host.example/a/b/main.bare', '/home/u/proj/main.bare', 'proj/main.bare', 'main.bare', 'https://host.example/main.bare', None]
-SYS_PREFIX = '/sys/prefix/'
+SYS_PREFIXES = ['/sys/prefix/', 'sys/', 'https://cdn.example/lib/', 'lib/sys/', '/sys/prefix/']
 
 
 def plan(tier, seed):
@@ -53,7 +53,7 @@ def join_dir(root, rel):
     return root[:root.rfind('/') + 1] + rel
 
 
-def build(rnd, loc, depth, files, counter):
+def build(rnd, loc, depth, files, counter, prefix):
     """Create the file at location loc (what the includer's reference resolves to); returns nothing."""
     me = counter[0]
     counter[0] += 1
@@ -76,11 +76,18 @@ def build(rnd, loc, depth, files, counter):
             child = ref
         else:
             ref = 's/' + name
-            child = SYS_PREFIX + ref
-        lines.append(f'include <{ref}>' if style == 'sys' else f"include '{ref}'")
+            child = prefix + ref
+        inc_line = f'include <{ref}>' if style == 'sys' else f"include '{ref}'"
+        if depth == 0 and rnd.random() < 0.25:
+            # an include statement inside a function that is defined and called in this same file: it still runs in GLOBAL
+            # scope (the included file logs the global cnt, not the parameter of the same name)
+            lines.append(f"function ld{counter[0]}(cnt, g0):\n    {inc_line}\n    return cnt\nendfunction")
+            lines.append(f"systemLog('ld ' + ld{counter[0]}(77, 'shadow'))")
+        else:
+            lines.append(inc_line)
         if rnd.random() < 0.1:
             continue  # missing file: never created
-        build(rnd, child, depth + 1, files, counter)
+        build(rnd, child, depth + 1, files, counter, prefix)
         x = rnd.random()
         if x < 0.4:
             lines.append(f"systemLog('mid {me} {k} ' + fn{counter[0] - 1 if False else me}x)") if False else lines.append(f"systemLog('mid {me} {k}')")
@@ -98,9 +105,10 @@ def build(rnd, loc, depth, files, counter):
 
 def make_tree(rnd):
     root = rnd.choice(ROOTS)
+    prefix = rnd.choice(SYS_PREFIXES)
     files = {}
     main_loc = root if root is not None else 'main.bare'
-    build(rnd, main_loc if root is not None else None, 0, files, [0])
+    build(rnd, main_loc if root is not None else None, 0, files, [0], prefix)
     main_key = norm_url(root) if root is not None else None
     main = files.pop(main_key)
     if root is None:
@@ -108,7 +116,7 @@ def make_tree(rnd):
         pass
     # the includer uses what the includes defined (global scope)
     main += "\nsystemLog('defined ' + jsonStringify(arrayNew(g0, g1, g2, g3)))\nif fn1:\n    systemLog(fn1('z'))\nendif\nsystemLog('done')"
-    return root, main, files
+    return root, main, files, prefix
 
 
 def status_of(exc, rt_err, p_err):
@@ -123,12 +131,12 @@ def user(g, lib):
     return {k: refval.canon(v) for k, v in g.items() if k not in lib}
 
 
-def run_real(model, root, files, faults, api):
+def run_real(model, root, files, faults, api, prefix):
     bare_script, lib, rt_err, p_err, url_file_relative = api
     fs = VirtualFS(files, faults=faults, norm=norm_url)
     logs = []
     g = {'cnt': 0}
-    o = {'globals': g, 'logFn': logs.append, 'fetchFn': fs, 'systemPrefix': SYS_PREFIX, 'maxStatements': 100000}
+    o = {'globals': g, 'logFn': logs.append, 'fetchFn': fs, 'systemPrefix': prefix, 'maxStatements': 100000}
     if root is not None:
         o['urlFn'] = functools.partial(url_file_relative, root)
     try:
@@ -143,11 +151,11 @@ def run_real(model, root, files, faults, api):
     return {'r': r, 'fetches': [norm_url(u) for u in fs.calls], 'logs': logs, 'globals': user(g, lib)}
 
 
-def run_ref(model, root, files, faults, api):
+def run_ref(model, root, files, faults, api, prefix):
     bare_script, lib, rt_err, p_err, _ = api
     fs = VirtualFS(files, faults=faults, norm=norm_url)
     g = {'cnt': 0}
-    vm = RefVM(g, lib, fetch=lambda url: fs({'url': url}), base=root, system_prefix=SYS_PREFIX, parse=bare_script.parse_script, fuel=100000)
+    vm = RefVM(g, lib, fetch=lambda url: fs({'url': url}), base=root, system_prefix=prefix, parse=bare_script.parse_script, fuel=100000)
     try:
         r = ('ok', refval.canon(vm.run(model)))
     except IncludeParseError as exc:
@@ -158,11 +166,11 @@ def run_ref(model, root, files, faults, api):
     return {'r': r, 'fetches': [norm_url(u) for u in vm.fetches], 'logs': vm.logs, 'globals': user(g, lib)}
 
 
-def check_tree(root, main, files, acc, api, only_fault=None):
+def check_tree(root, main, files, acc, api, prefix, only_fault=None):
     bare_script = api[0]
     model = bare_script.parse_script(main)
-    base_case = {'root': root, 'main': main, 'files': {k: v for k, v in files.items()}}
-    ref0 = run_ref(model, root, files, {}, api)
+    base_case = {'root': root, 'main': main, 'files': {k: v for k, v in files.items()}, 'prefix': prefix}
+    ref0 = run_ref(model, root, files, {}, api, prefix)
     nfetch = len(ref0['fetches'])
     plans = [({}, 'none')]
     for k in range(nfetch):
@@ -171,8 +179,8 @@ def check_tree(root, main, files, acc, api, only_fault=None):
     if only_fault is not None:
         plans = [p for p in plans if p[1] == only_fault] or plans[:1]
     for faults, label in plans:
-        ref = ref0 if not faults else run_ref(model, root, files, faults, api)
-        real = run_real(model, root, files, faults, api)
+        ref = ref0 if not faults else run_ref(model, root, files, faults, api, prefix)
+        real = run_real(model, root, files, faults, api, prefix)
         if real is None:
             acc.timeouts += 1
             continue
@@ -187,7 +195,7 @@ def check_tree(root, main, files, acc, api, only_fault=None):
                           + f'\nmain:\n{main}\nfiles={sorted(files)!r:.600}', dict(base_case, fault=label))
             return
     if len(acc.samples) < 2 and nfetch >= 3:
-        acc.sample({'root': root, 'main': main.split('\n')[:12], 'files': sorted(k for k in files if k is not None)[:8], 'fetch_sequence': ref0['fetches'][:8], 'fault_runs': len(plans) - 1})
+        acc.sample({'root': root, 'main': main.split('\n')[:12], 'system_prefix': prefix, 'files': sorted(k for k in files if k is not None)[:8], 'fetch_sequence': ref0['fetches'][:8], 'fault_runs': len(plans) - 1})
 
 
 def run_shard(spec, acc):
@@ -195,9 +203,10 @@ def run_shard(spec, acc):
     base = spec['seed'] * 1000003 + spec['shard'] * 7919 + 101
     for i in range(spec['n']):
         rnd = random.Random(base + i)
-        root, main, files = make_tree(rnd)
+        root, main, files, prefix = make_tree(rnd)
         acc.cover('roots', repr(root))
-        check_tree(root, main, files, acc, api)
+        acc.cover('system_prefixes', prefix)
+        check_tree(root, main, files, acc, api, prefix)
     if acc.counters.get('fetch_calls_observed', 0) == 0:
         acc.note_inconclusive('no fetch call was observed')
 
@@ -209,4 +218,4 @@ def replay(spec, acc):
         acc.note_inconclusive('finding-level replay entry')
         return
     files = {(None if k == 'null' else k): v for k, v in case['files'].items()}
-    check_tree(case['root'], case['main'], files, acc, api, only_fault=case.get('fault'))
+    check_tree(case['root'], case['main'], files, acc, api, case.get('prefix', '/sys/prefix/'), only_fault=case.get('fault'))
